@@ -436,7 +436,7 @@ func main() {
 	run := vh.Start("Verif.Corr.C03", 60)
 	defer run.Finish()
 	run.SetPreamble("From Verif Require Import Model.EpochKG Model.EpochKGLabels Model.EpochKGHandler Model.GossipNet.\nOpen Scope N_scope.")
-	run.Rule = "schedules on n real handler stacks per flavour: (core, n=3, t=2, one identity) all interleavings of the three triggers and six share deliveries up to renaming of the nodes, keys messages delivered lazily (quick: every 2nd of them, keys messages delivered lazily; thorough: all, and eagerly as well), all interleavings with two triggered keypers; all interleavings with two triggered keypers whose trigger names the same identity twice; sampled complete schedules (one or two identities, [A, A, B], [A, A]) with losses (up to n-t share messages per receiver), duplicates, repeated triggers for core / service / Gnosis (+ access node), n <= 5, one or two identities; sampled partial schedules; sampled two-round schedules (every keyper triggered for the first identity, then for both); core: identities of different lengths whose bytewise and numeric orders disagree ([0100, ff], [0100, 02, ff], [00ff, 010000, ffff]); rounds over near identities (same length, same first and last bytes) in both orders and triggers naming two of them; non-trivial = at least one keys message was published; distinct by canonical rendering of configuration and schedule"
+	run.Rule = "schedules on n real handler stacks per flavour: (core, n=3, t=2, one identity) all interleavings of the three triggers and six share deliveries up to renaming of the nodes, keys messages delivered lazily (quick: every 2nd of them, keys messages delivered lazily; thorough: all, and eagerly as well), all interleavings with two triggered keypers; all interleavings with two triggered keypers whose trigger names the same identity twice; sampled complete schedules (one or two identities, [A, A, B], [A, A]) with losses (up to n-t share messages per receiver), duplicates, repeated triggers for core / service / Gnosis (+ access node, its storage built through the node's own chain sync callbacks in the orders keyper set then eon key / eon key then keyper set / keyper set announced again after the key, in turn), n <= 5, one or two identities; sampled partial schedules; sampled two-round schedules (every keyper triggered for the first identity, then for both); core: identities of different lengths whose bytewise and numeric orders disagree ([0100, ff], [0100, 02, ff], [00ff, 010000, ffff]); rounds over near identities (same length, same first and last bytes) in both orders and triggers naming two of them; non-trivial = at least one keys message was published; distinct by canonical rendering of configuration and schedule"
 	workers := runtime.NumCPU() / 2
 	if workers < 1 {
 		workers = 1
@@ -452,7 +452,16 @@ func main() {
 	}
 
 	var cases []*caseJ
-	emit := func(c *caseJ) { cases = append(cases, c) }
+	// the access node of a generated Gnosis schedule is built in one of the three orders, in turn
+	// (a replayed or corpus schedule says which itself)
+	assignAccess, nGnosis := false, 0
+	emit := func(c *caseJ) {
+		if assignAccess && c.Cfg.Flavour == "gnosis" && c.Cfg.Access == "" {
+			c.Cfg.Access = g.AccessOrders[nGnosis%len(g.AccessOrders)]
+			nGnosis++
+		}
+		cases = append(cases, c)
+	}
 	if run.Replay != "" {
 		var c caseJ
 		if err := run.LoadReplay(&c); err != nil {
@@ -469,6 +478,7 @@ func main() {
 			}
 			run.Replay = ""
 		}
+		assignAccess = true
 		core := g.SimConfig{Flavour: "core", N: 3, T: 2, Idents: idents("core", 1)}
 		stride := run.Scale(2, 1)
 		count := 0
